@@ -50,6 +50,8 @@ def run(tier):
             try:
                 cov, theta = G.build_kernel(kd, d, n)
                 theta = np.array(theta, dtype=float)
+                # the kernel object first receives ANOTHER data set (one more point), then this one: nothing of the first may survive
+                cov.pass_spatial_data(np.vstack([X, X[-1:] + 1.0]))
                 cov.pass_spatial_data(X)
                 cname = type(cov).__name__
                 want_call, want_q, want_build = G.rmat(c["call"]), G.rmat(c["callq"]), G.rmat(c["build"])
@@ -87,6 +89,27 @@ def run(tier):
                                          {**ident, "parameter_index": p, "label": cov.hyperpar_labels[p] if p < len(cov.hyperpar_labels) else None,
                                           "want": want_g, "got": got_g}, site=f"{cname}.covariance_and_gradients")
                             break
+                # change-point bounds given by the user: each location / width parameter (by its label) gets ITS bound
+                cps = [kd] if kd["k"] == "cp" else [p_ for p_ in kd.get("parts", []) if p_["k"] == "cp"]
+                for cpd in cps:
+                    from inference.gp.covariance import ChangePoint
+                    import re as _re
+                    nk = len(cpd["parts"])
+                    lb = [(-1.0 - i, 2.0 + i) for i in range(nk - 1)]
+                    wb = [(0.01 * (i + 1), 0.5 * (i + 1)) for i in range(nk - 1)]
+                    cpo = ChangePoint(kernels=[G.build_kernel(p_, d, n)[0] for p_ in cpd["parts"]], axis=cpd["axis"] - 1, location_bounds=lb, width_bounds=wb)
+                    cpo.pass_spatial_data(X)
+                    cpo.estimate_hyperpar_bounds(np.array([0.5, -1.0, 2.0, 1.5])[:n])
+                    wrong = []
+                    for lab, bnd in zip(cpo.hyperpar_labels, cpo.bounds):
+                        m_ = _re.search(r"ChngPnt(\d+) (location|width)", lab)
+                        if m_:
+                            want_b = (lb if m_.group(2) == "location" else wb)[int(m_.group(1))]
+                            if tuple(float(v) for v in bnd) != tuple(float(v) for v in want_b):
+                                wrong.append({"label": lab, "bound": [float(v) for v in bnd], "given": list(want_b)})
+                    if wrong or len(cpo.bounds) != len(cpo.hyperpar_labels):
+                        ck.violation("bounds follow the order of the hyper-parameters and labels: each change-point location / width gets the bound given for it",
+                                     {**ident, "mismatched": wrong[:3]}, site="ChangePoint.estimate_hyperpar_bounds")
                 # bounds of a composite are those of the components concatenated in order
                 y = np.array([0.5, -1.0, 2.0, 1.5])[:n]
                 cov.estimate_hyperpar_bounds(y)
